@@ -193,7 +193,7 @@ func checkNotify(w *world, recs []*opRec, res *driver.Result, viaCond bool) (str
 		}
 		switch r.Op.K {
 		case "wait":
-			id := int(r.Ticket)
+			id := int(r.Ticket - w.sc.Base) // tickets count from the list's starting value, modulo 2^32
 			if viaCond {
 				id = nwait
 			}
